@@ -12,7 +12,7 @@
 (*   any exception ("err" non-empty) is not explained by the specification.   *)
 EXTENDS TraceBase, Integers, FiniteSets
 
-CONSTANTS Recs, Obs, Vals, Extra, Dev
+CONSTANTS Recs, Obs, Vals, Extra, DB, Dev
 
 VARIABLES l, recs, obs, link, out
 
@@ -69,11 +69,16 @@ TrCopy == /\ IsEvent("Copy") /\ Ev.err = ""
           /\ Ev.r \in Recs /\ Ev.q \in Recs
           /\ R!Copy(Ev.r, Ev.q)
 
+\* the record is saved as a database row and record q is made from that row
+TrReload == /\ IsEvent("Reload") /\ Ev.err = ""
+            /\ Ev.r \in Recs /\ Ev.q \in Recs
+            /\ R!Reload(Ev.r, Ev.q)
+
 TrObserve == /\ IsEvent("Observe") /\ Ev.err = ""
              /\ Ev.r \in Recs /\ Ev.o \in Obs
              /\ R!Observe(Ev.r, Ev.o)
 
-TraceNext == TrReset \/ TrSet \/ TrGet \/ TrDelete \/ TrInvalidate \/ TrCopy \/ TrObserve
+TraceNext == TrReset \/ TrSet \/ TrGet \/ TrDelete \/ TrInvalidate \/ TrCopy \/ TrReload \/ TrObserve
 
 TraceSpec == TraceInit /\ [][TraceNext]_tvars
 
